@@ -931,8 +931,77 @@ FINDINGS = {
     "C08/keplernum-dates-list": _kn_dates_list,
     "C08/keplernum-backward-range": _kn_backward,
     "C08/keplernum-short-span": _kn_short,
-    "C08/keplernum-beyond-stop": _kn_beyond,
+    "C08/keplernum-beyond-stop": lambda facet, case, kind, msg, data: (
+        (facet == "adaptive_dates" and kind == "adaptive-dates-beyond-stop") or _kn_beyond(facet, case, kind, msg, data)),
 }
+
+
+# ------------------------------------------------------------------ adaptive numerical methods: the dates of a tabulation
+
+
+@st.composite
+def adaptive_dates_case(draw):
+    """KeplerNum with rkf54 / dopri54 (accepted steps are irregular): forward tabulations with an explicit output step
+    - equal in value to the propagator's step, a divisor, a multiple, anything - over spans of at least 9 nominal
+    steps (outside the listed findings on short spans / backward ranges)."""
+    h = draw(st.sampled_from([30, 60, 60, 90, 120]))
+    kind = draw(st.integers(0, 5))
+    out = h if kind < 2 else (h // 2 if kind == 2 else (2 * h if kind == 3 else draw(st.integers(7, 3 * h))))
+    nsteps = draw(st.integers(9, 40))
+    span = nsteps * h
+    whole = draw(st.booleans())
+    if whole:
+        span = (span // out) * out
+    el = draw(go.elements(hyperbolic=False, emax_ell=0.75, rp_range=(1.03, 2.0)))
+    return dict(h=h, out=out, span=span, method=draw(st.sampled_from(["rkf54", "dopri54"])), el=el,
+                k0=draw(st.sampled_from([0, 0, 3, 11])), stop_as=draw(st.sampled_from(["date", "timedelta"])),
+                route=draw(st.sampled_from(["iter", "iter", "ephemeris", "ephem"])))
+
+
+def check_adaptive_dates(case):
+    from beyond.env.solarsystem import get_body
+    from beyond.orbits import Orbit
+    from beyond.propagators.keplernum import KeplerNum
+
+    _LABELS["epoch"] = _LABELS["ops"] = "UTC"
+    h, out, span = case["h"], case["out"], case["span"]
+    el = case["el"]
+    mu = go.MU["Earth"]
+    cart = tb.kep2cart(el["a"], el["e"], el["i"], el["raan"], el["argp"], el["nu"], mu)
+    orb = Orbit(list(cart), mkdate(0), "cartesian", "EME2000", KeplerNum(timedelta(seconds=h), get_body("Earth"), method=case["method"]))
+    start = case["k0"] * h * US
+    stop = start + span * US
+    kw = dict(start=mkdate(start), step=timedelta(seconds=out),
+              stop=timedelta(seconds=span) if case["stop_as"] == "timedelta" else mkdate(stop))
+    stream = {"iter": orb.iter, "ephemeris": orb.ephemeris, "ephem": lambda **k: iter(orb.ephem(**k))}[case["route"]](**kw)
+    got = list(stream)
+    want = model_range(start, stop, out * US)
+    ts = [us_of(o.date) for o in got]
+    what = (f"KeplerNum({h} s, {case['method']}).{case['route']}(start=+{start // US} s, stop=+{stop // US} s, step={out} s"
+            f"{' = the propagator step' if out == h else ''})")
+    if len(ts) > len(want) and all(abs(a - b) <= 1 for a, b in zip(ts, want)) and all(
+            stop < t <= stop + h * US + 1 for t in ts[len(want):]):
+        # the requested dates, then samples beyond the stop up to the next integration point: the listed finding
+        # keplernum-beyond-stop (the accepted steps of an adaptive method are irregular: the stop is never "on the grid")
+        raise Violation("adaptive-dates-beyond-stop", f"{what}: {len(ts) - len(want)} sample(s) after the stop, up to "
+                        f"+{ts[-1] / 1e6} s", extra=len(ts) - len(want))
+    if len(ts) != len(want) or any(abs(a - b) > 1 for a, b in zip(ts, want)):
+        extra = [t / 1e6 for t in ts if all(abs(t - w) > 1 for w in want)][:5]
+        raise Violation("adaptive-dates", f"{what}: {len(ts)} dates, the contract gives {len(want)} "
+                        f"({want[0] / 1e6} .. {want[-1] / 1e6} s every {out} s); dates off the requested grid: {extra}; "
+                        f"last yielded {ts[-1] / 1e6 if ts else None} s", n=len(ts))
+    # each state is the two-body state of its own date (a gross check only: the accuracy of the adaptive methods is
+    # C06's subject; a state belonging to another date of the grid is kilometres away)
+    worst = 0.0
+    for o, t in zip(got, want):
+        ref = tb.propagate_uv(cart, t / 1e6, mu)
+        d = float(np.linalg.norm(np.asarray(o.copy(form="cartesian").base, float)[:3] - ref[:3]))
+        bound = 2000.0
+        worst = max(worst, d / bound)
+        if d > bound:
+            raise Violation("adaptive-state", f"{what}: state dated +{t / 1e6} s is {d:.4g} m from the two-body solution")
+    return dict(nt=True, cls=[case["method"], "step:=h" if out == h else "step:other", f"route:{case['route']}",
+                              "start:epoch" if start == 0 else "start:later"], ratio=worst)
 
 
 def _facet(kind, quick, thorough):
@@ -949,4 +1018,7 @@ FACETS = [
     _facet("keplernum", (8, 30), (16, 300)),
     _facet("cw", (2, 60), (6, 600)),
     _facet("ephem", (3, 60), (8, 600)),
+    Facet("adaptive_dates", lambda s, t: adaptive_dates_case(), check_adaptive_dates, setup=setup,
+          rule="every case: a forward tabulation of an adaptive numerical propagator with an explicit output step",
+          quick=(4, 40), thorough=(8, 400)),
 ]
